@@ -8,6 +8,7 @@ package main
 
 import (
 	"context"
+	"encoding/base64"
 	"errors"
 	"fmt"
 	"io"
@@ -19,9 +20,12 @@ import (
 	clog "github.com/containerd/log"
 	"github.com/containerd/stargz-snapshotter/fs/remote"
 	"github.com/containerd/stargz-snapshotter/fs/source"
+	crikc "github.com/containerd/stargz-snapshotter/service/keychain/cri"
 	"github.com/containerd/stargz-snapshotter/service/resolver"
 	digest "github.com/opencontainers/go-digest"
 	ocispec "github.com/opencontainers/image-spec/specs-go/v1"
+	"google.golang.org/grpc"
+	runtime "k8s.io/cri-api/pkg/apis/runtime/v1"
 	"verif/harness/hx"
 )
 
@@ -43,6 +47,7 @@ type Resp struct {
 	Code int    `json:"code"`
 	Loc  string `json:"loc"` // "" | "ext:N" | "blob:I"
 	WF   bool   `json:"wf"`
+	Chal bool   `json:"chal,omitempty"` // epilogue only: WWW-Authenticate: Basic
 }
 
 type Op struct {
@@ -69,11 +74,16 @@ type Case struct {
 	Mirrors []HostCfg `json:"mirrors"`
 	Script  []Resp    `json:"script"`
 	Ops     []Op      `json:"ops"`
+	// credential epilogue (oracle only, not part of the Coq term): the image was pulled through the CRI keychain with
+	// user/password and this server address ("" = no pull, "empty" = none named, otherwise the address text); after the
+	// schedule one more check call is answered 401 + Basic challenge, then 206
+	AuthSA string `json:"auth_sa"`
 	// observed
-	ResReqs []Req  `json:"res_reqs,omitempty"`
-	Target  *[3]string `json:"target,omitempty"`
-	Outs    []Out  `json:"outs,omitempty"`
-	Final   *[3]string `json:"final,omitempty"`
+	ResReqs   []Req      `json:"res_reqs,omitempty"`
+	Target    *[3]string `json:"target,omitempty"`
+	Outs      []Out      `json:"outs,omitempty"`
+	Final     *[3]string `json:"final,omitempty"`
+	AuthStats [2]int     `json:"auth_stats"` // challenges issued, requests that carried an Authorization header
 }
 
 // ---- world ----
@@ -87,7 +97,34 @@ type world struct {
 	cur       *thread
 	curReqs   *[]Req
 	cleanup   bool
+	authSA    string
+	authSent  int
+	authAsked int
 }
+
+// fake backend CRI for the keychain
+type fakeCRI struct{}
+
+func (fakeCRI) ListImages(ctx context.Context, in *runtime.ListImagesRequest, opts ...grpc.CallOption) (*runtime.ListImagesResponse, error) {
+	return &runtime.ListImagesResponse{}, nil
+}
+func (fakeCRI) ImageStatus(ctx context.Context, in *runtime.ImageStatusRequest, opts ...grpc.CallOption) (*runtime.ImageStatusResponse, error) {
+	return &runtime.ImageStatusResponse{}, nil
+}
+func (fakeCRI) PullImage(ctx context.Context, in *runtime.PullImageRequest, opts ...grpc.CallOption) (*runtime.PullImageResponse, error) {
+	return &runtime.PullImageResponse{}, nil
+}
+func (fakeCRI) RemoveImage(ctx context.Context, in *runtime.RemoveImageRequest, opts ...grpc.CallOption) (*runtime.RemoveImageResponse, error) {
+	return &runtime.RemoveImageResponse{}, nil
+}
+func (fakeCRI) ImageFsInfo(ctx context.Context, in *runtime.ImageFsInfoRequest, opts ...grpc.CallOption) (*runtime.ImageFsInfoResponse, error) {
+	return &runtime.ImageFsInfoResponse{}, nil
+}
+
+const (
+	kcUser = "alice"
+	kcPass = "registry-password"
+)
 
 type thread struct {
 	resume chan Resp
@@ -173,6 +210,34 @@ func (w *world) checkRequest(req *http.Request) {
 	if strings.HasPrefix(w.urlLoc(u), "?") {
 		w.problems = append(w.problems, "request to an unexpected URL "+u)
 	}
+	// credentials (clauses of C18 evaluated on the pull request the case made, not on the keychain's answers): the
+	// password may only travel to a host that the pull's server address names, or anywhere if it named none
+	allowed := w.authSA == "empty" || (w.authSA != "" && saHost(w.authSA) == req.URL.Host)
+	if az := req.Header.Get("Authorization"); az != "" {
+		w.authSent++
+		if !allowed {
+			w.problems = append(w.problems, fmt.Sprintf("credential sent to host %q although the pull named server address %q (%s)", req.URL.Host, w.authSA, u))
+		} else if az != "Basic "+base64.StdEncoding.EncodeToString([]byte(kcUser+":"+kcPass)) {
+			w.problems = append(w.problems, fmt.Sprintf("credential sent to host %q is not the one of the pull request", req.URL.Host))
+		}
+	}
+	for _, vs := range req.Header {
+		for _, v := range vs {
+			dec, err := base64.StdEncoding.DecodeString(strings.TrimPrefix(v, "Basic "))
+			if ((err == nil && strings.Contains(string(dec), kcPass)) || strings.Contains(v, kcPass)) && !allowed {
+				w.problems = append(w.problems, fmt.Sprintf("the registry password travels to host %q although the pull named server address %q", req.URL.Host, w.authSA))
+			}
+		}
+	}
+}
+
+// saHost is the host part of a server address the generator wrote ("scheme://host[/path]").
+func saHost(sa string) string {
+	s := strings.TrimPrefix(strings.TrimPrefix(sa, "https://"), "http://")
+	if i := strings.IndexByte(s, '/'); i >= 0 {
+		s = s[:i]
+	}
+	return s
 }
 
 func (w *world) RoundTrip(req *http.Request) (*http.Response, error) {
@@ -201,6 +266,10 @@ func (w *world) RoundTrip(req *http.Request) (*http.Response, error) {
 	if l := w.locURL(r.Loc); l != "" {
 		h.Set("Location", l)
 		w.handedOut[l] = true
+	}
+	if r.Chal {
+		h.Set("WWW-Authenticate", `Basic realm="verif"`)
+		w.authAsked++
 	}
 	switch {
 	case r.Code == 206:
@@ -259,7 +328,21 @@ func exec(c Case, g *generator) (Case, []string) {
 	w.hostNames = append(w.hostNames, refHost)
 	w.blobURLs = append(w.blobURLs, "https://"+refHost+"/v2/team/app/blobs/"+dg)
 	cfg := resolver.Config{Host: map[string]resolver.HostConfig{refHost: {Mirrors: mirrors}}}
-	real := resolver.RegistryHostsFromConfig(cfg)
+	var credFns []resolver.Credential
+	if c.AuthSA != "" {
+		creds, srv := crikc.VerifNewCRIKeychain(fakeCRI{})
+		sa := c.AuthSA
+		if sa == "empty" {
+			sa = ""
+		}
+		if _, err := srv.PullImage(context.Background(), &runtime.PullImageRequest{Image: &runtime.ImageSpec{Image: refStr},
+			Auth: &runtime.AuthConfig{Username: kcUser, Password: kcPass, ServerAddress: sa}}); err != nil {
+			panic(err)
+		}
+		w.authSA = c.AuthSA
+		credFns = append(credFns, creds)
+	}
+	real := resolver.RegistryHostsFromConfig(cfg, credFns...)
 	hostsFn := source.RegistryHosts(func(ref reference.Spec) ([]docker.RegistryHost, error) {
 		hs, err := real(ref)
 		if err != nil {
@@ -376,6 +459,15 @@ func exec(c Case, g *generator) (Case, []string) {
 			w.problems = append(w.problems, "a fetch/check call does not terminate although every request fails")
 		}
 	}
+	// credential epilogue: whoever the fetcher currently talks to demands Basic credentials
+	if c.AuthSA != "" {
+		w.script = []Resp{{Code: 401, Chal: true}, {Code: 206, WF: true}, {Code: 206, WF: true}}
+		_ = vf.Check()
+		// and the registry host itself does (through a URL refresh)
+		w.script = []Resp{{Code: 403}, {Code: 401, Chal: true}, {Code: 200, WF: true}, {Code: 206, WF: true}}
+		_ = vf.Check()
+	}
+	c.AuthStats = [2]int{w.authAsked, w.authSent}
 	return c, w.problems
 }
 
@@ -457,6 +549,10 @@ func (g *generator) next(ts []*thread) (Op, bool) {
 		return Op{Op: "resume", T: r.Intn(len(ts) + 2), R: genResp(r, g.nhosts, "run")}, true
 	}
 	ti := live[r.Intn(len(live))]
+	if ts[ti].state == "hook" && len(live) > 1 && r.Chance(2, 3) {
+		// keep a thread that has read its target waiting while the others run (the window of the header race)
+		ti = live[r.Intn(len(live))]
+	}
 	t := ts[ti]
 	o := Op{Op: "resume", T: ti}
 	if t.state == "rt" {
@@ -482,6 +578,16 @@ func gen(r *hx.Rng) (Case, *generator) {
 	nh := nm + 1
 	for i := r.Intn(7); i > 0; i-- {
 		c.Script = append(c.Script, genResp(r, nh, "resolve"))
+	}
+	switch r.Pick(30, 25, 25, 10, 10) {
+	case 1:
+		c.AuthSA = "empty"
+	case 2:
+		c.AuthSA = "https://mirror-0.example/v2/"
+	case 3:
+		c.AuthSA = "https://" + refHost
+	case 4:
+		c.AuthSA = "https://cdn-0.example/"
 	}
 	return c, &generator{r: r, nhosts: nh, left: r.Range(4, 40)}
 }
@@ -670,6 +776,18 @@ func main() {
 				ctx.Count("final.target-changed")
 			}
 		}
+		if c.AuthSA != "" {
+			ctx.Count("auth.keychain")
+			if c.AuthStats[0] > 0 {
+				ctx.Count("auth.challenged")
+			}
+			if c.AuthStats[1] > 0 {
+				ctx.Count("auth.credential-sent")
+			}
+			if c.AuthStats[0] > 0 && c.AuthStats[1] == 0 {
+				ctx.Count("auth.credential-withheld")
+			}
+		}
 		term := coqCase(c)
 		id := ctx.Case(term, c, term, redirected && refreshed && withHdr)
 		for _, p := range problems {
@@ -691,7 +809,7 @@ func main() {
 		{Mirrors: m1, Ops: []Op{{Op: "spawn", Kind: "fetch", Retry: true}, {Op: "resume", T: 0}, {Op: "resume", T: 0}, {Op: "resume", T: 0, R: ok},
 			{Op: "spawn", Kind: "check"}, {Op: "resume", T: 1}, {Op: "resume", T: 1}, {Op: "resume", T: 1, R: ok}}},
 		// redirected: nothing to the CDN; expiry (403) -> refresh -> new location
-		{Mirrors: m1, Script: []Resp{redir("ext:0"), {Code: 405}, ok}, Ops: []Op{{Op: "spawn", Kind: "fetch", Retry: true}, {Op: "resume", T: 0}, {Op: "resume", T: 0},
+		{Mirrors: m1, AuthSA: "https://mirror-0.example/v2/", Script: []Resp{redir("ext:0"), {Code: 405}, ok}, Ops: []Op{{Op: "spawn", Kind: "fetch", Retry: true}, {Op: "resume", T: 0}, {Op: "resume", T: 0},
 			{Op: "resume", T: 0, R: Resp{Code: 403}}, {Op: "resume", T: 0, R: redir("ext:1")}, {Op: "resume", T: 0}, {Op: "resume", T: 0, R: ok}}},
 		// the race the fix closes: A has read the (redirected) target, B's refresh is answered directly and installs
 		// the registry headers, then A builds and sends its request to the old location
